@@ -1,6 +1,7 @@
 package refl
 
 import (
+	"regexp"
 	"fmt"
 	"go/ast"
 	"go/token"
@@ -449,4 +450,26 @@ func (c *canon) switchStmt(s ast.Stmt) string {
 		arms = append(arms, lbl+": "+c.stmts(cc.Body))
 	}
 	return head + " {" + strings.Join(arms, " | ") + "}"
+}
+
+// qualExpr renders an expression like types.ExprString, with every package qualifier replaced by the label of the
+// package it resolves to (import path, or the plain name for the few well-known packages): local import aliases
+// such as protoimpl1 do not matter.
+func qualExpr(info *types.Info, e ast.Expr) string {
+	out := types.ExprString(e)
+	alias := map[string]string{}
+	ast.Inspect(e, func(n ast.Node) bool {
+		if id, ok := n.(*ast.Ident); ok {
+			if pn, ok := info.Uses[id].(*types.PkgName); ok {
+				alias[id.Name] = pkgLabel(pn.Imported())
+			}
+		}
+		return true
+	})
+	for a, l := range alias {
+		if a != l {
+			out = regexp.MustCompile(`(^|[^A-Za-z0-9_.])`+regexp.QuoteMeta(a)+`\.`).ReplaceAllString(out, "${1}"+l+".")
+		}
+	}
+	return out
 }
